@@ -528,6 +528,7 @@ class UnconditionalCutter(SingleEndModifier):
     def __call__(self, read, info: ModificationInfo):
         if self.length > 0:
             info.cut_prefix = read.sequence[: self.length]
+            info.removed_prefix_length += len(info.cut_prefix)
             return read[self.length :]
         elif self.length < 0:
             info.cut_suffix = read.sequence[self.length :]
@@ -859,6 +860,7 @@ class QualityTrimmer(SingleEndModifier):
             read.qualities, self.cutoff_front, self.cutoff_back, self.base
         )
         self.trimmed_bases += len(read) - (stop - start)
+        info.removed_prefix_length += start
         return read[start:stop]
 
 
